@@ -562,6 +562,13 @@ def rewrite_for_header(pat, expr, idx, spec):
         seq = m.group(1)
         return (f"let mut {idx}: usize = 0;", f"{idx} + 1 < {seq}.len()",
                 f"let {pat} = [{seq}[{idx}], {seq}[{idx} + 1]];", 'R2 windows(2)')
+    m = re.fullmatch(r'(' + PATH + r')\.iter\(\)\.rev\(\)\.take\(([\w.]+)\)', e)
+    if m:
+        # R2r: the last N elements, last first (definition of rev + take on a slice iterator)
+        seq, n = m.group(1), m.group(2)
+        if not re.fullmatch(r'\w+', pat):
+            raise ExtractError(f"R2r: unsupported pattern {pat!r}")
+        return (f"let mut {idx}: usize = 0;", f"{idx} < {n} && {idx} < {seq}.len()", f"let {pat} = &{seq}[{seq}.len() - 1 - {idx}];", 'R2r iter().rev().take(n)')
     m = re.fullmatch(r'(' + PATH + r')\.(chunks|chunks_exact)\((\w+)\)', e)
     if m:
         # R2c: the definition of slice::chunks / chunks_exact — consecutive sub-slices of N elements; `chunks` hands out the
@@ -741,6 +748,11 @@ def extract_fn(repo, fnspec):
         body = b2
     if 'R4' in rules:
         body = r4_strip_tracing(body, log)
+    if 'R8w' in rules:
+        b2, k_ = re.subn(r'\s*\.await\b', '', body)
+        if k_:
+            log.append(f"R8w `.await` erased ({k_}x): every awaited future is run to completion at its await point (one task, no interleaving)")
+            body = b2
     if 'R8' in rules:
         body = r8_guards(body, log, set(fnspec.get('dropped_fields', [])))
     if 'R13' in rules or 'R13m' in rules:
